@@ -105,6 +105,7 @@ let parse_log unknown s =
 
 let () =
   let mode = Sys.argv.(1) and dumpfile = Sys.argv.(2) in
+  let namedt = Hashtbl.create 100 in
   let nodes = Hashtbl.create 100 and sels = Hashtbl.create 1000 and rofs = Hashtbl.create 100 and thrs = Hashtbl.create 100 and roots = Hashtbl.create 100 in
   let ic = open_in dumpfile in
   (try while true do
@@ -115,7 +116,8 @@ let () =
       | Some k ->
         let a = String.sub body 0 k and h = String.sub body (k + 1) (String.length body - k - 1) in
         (match split_ws a with
-         | id :: en :: _nm :: _n :: subs ->
+         | id :: en :: nm :: _n :: subs ->
+           if nm = "1" then Hashtbl.replace namedt (int_of_string id) ();
            Hashtbl.replace nodes (int_of_string id) { nhead = parse_head (split_ws h); nsubs = nats subs; nenabled = (en = "1") }
          | _ -> failwith "bad node")
       | None -> failwith "bad node line"
@@ -173,12 +175,12 @@ let () =
            let vetoing = (act = "v") in
            let tagged r = act = "t" && Hashtbl.mem thrs (gid, int_of_nat r) in
            let c = { ceol = EolLfCrlf;
-                     acts = (fun _ r -> if vetoing && (let i = int_of_nat r in i < n && garr.(i).nenabled) then AKApply true
+                     acts = (fun _ r -> if vetoing && (let i = int_of_nat r in Hashtbl.mem namedt i) then AKApply true
                                         else if (throwing && (let i = int_of_nat r in i < n && garr.(i).nenabled)) || tagged r then AKApply false else AKNone);
                      abeh = (fun _ r b e ->
                          if tagged r then AThrow N0 else
                          let r = int_of_nat r and (bb, _, _) = ipos b and (eb, _, _) = ipos e in
-                         if vetoing then ARet (veto_pred r bb eb) else
+                         if vetoing then ARet (r = root || veto_pred r bb eb) else
                          if throwing && throw_pred r bb eb then AThrow N0 else ARet true);
                      ibeh = (fun a b e ->
                          let (bb, _, _) = ipos b and (eb, _, _) = ipos e in
